@@ -1292,6 +1292,25 @@ class ValueGen:
             tw = self.text_twin(sim)
             if tw is not None:
                 return tw
+        if self.cfg.get("db2") and rng.random() < 0.12 and not getattr(self, "plan", None):
+            # the same conversion asked of the singleton (where it is valid) and of the second
+            # database (where one of the units belongs to another quantity type), in either order
+            d = self.cfg["db2"]
+            t = d["from"]
+            own = [w for tt, us in d["types"] if tt == t for w in us]
+            if own:
+                frm, to = (rng.choice(own), d["moved"]) if rng.random() < 0.5 else (d["moved"], rng.choice(own))
+                val = self.value() if rng.random() < 0.5 else self.container(rng.choice([1, 2, 3]), kinds=("L", "T", "N"))
+                valid = self.op("cv.db.Convert.float", "db", "Convert", [t, frm, to, val])
+                bad = self.op("flt.incompatible.cv.db2.Convert", "db2", "Convert", [t, frm, to, val], f="F1.incompatible", x=[{"o": "reject_db2", "p": "C05", "id": "C05.loud", "t": t, "frm": frm, "to": to}])
+                valid["c"] = bad["c"] = "saboteur"
+                if rng.random() < 0.7:
+                    self.plan = [bad]
+                    self.plan_sticky = True
+                    return valid
+                self.plan = [valid]
+                self.plan_sticky = True
+                return bad
         if kind == "pair":
             x = self.pick(sim, lambda v: isinstance(v, (u.Scalar, u.Array, u.FractionScalar, u.Quantity)) and bool(M.dim_vector(M.quantity_of(v))))
             if x is None:
